@@ -1388,6 +1388,11 @@ def run(ctx):
         "(dataset, source kinds in order, option tuple); non-trivial = at least one option beyond the output or a faulty source")
     ok = core.standard_proof_stage(ctx, ["props/C16.vo"], "C16", THEOREMS, search_fn=search, gens=["gen_rdump"])
     ctx.assumptions += [
+        "the generated facts (gen/Gen_rdump.v) are read off the behaviour of rdump.main / record_stream / "
+        "iter_timestamped_records on probes (tools/vf/factgen/_c16_observe.py: logging stubs in rdump's namespace, probe "
+        "records, the live argparse parser); the probes are finite samples (skip x count grid, every mode x -F x -X x -f "
+        "subset, four failing-source kinds) and the model's value is the one that explains all of them; the ast recognisers "
+        "only cross-check (contradiction = fail closed)",
         "a record is an abstract value in model/Rdump.v; attribute assignment, RecordFieldRewriter.rewrite, "
         "iter_timestamped_records and the two selector engines are parameters of the theorems; assumed of them: "
         "RecordFieldRewriter.rewrite returns the record unchanged when fields, exclude and expression are all empty "
